@@ -59,6 +59,8 @@ def gen_beh(rng, typ, feats) -> Dict[str, Any]:
                 b["future_pers"] = True
         if rng.random() < 0.15:
             b["explicit_time"] = True
+        if feats.get("none_values") and rng.random() < 0.6:
+            b["p_none"] = rng.choice([0.3, 1.0])     # events whose value is None
     if feats.get("pers_offset") and typ != "event-based" and not b.get("future") and rng.random() < 0.5:
         # every reply of this simulator is dated a constant number of time units after its step
         # (persistent values included; output times stay monotone, so "most recent value whose
@@ -106,6 +108,7 @@ def swarm_features(rng, force=None) -> Dict[str, bool]:
         "late_start": rng.random() < 0.25,   # time-based/hybrid simulators whose first step is at t>0
         "pers_offset": rng.random() < 0.12,  # replies dated a constant offset after the step
         "children": rng.random() < 0.1,      # child entities of another model as connection ends
+        "none_values": rng.random() < 0.1,   # event outputs that are present but None
     }
     if force:
         f.update(force)
@@ -572,6 +575,8 @@ def gen_loop(seed: int, tier: str = "quick") -> Dict[str, Any]:
                "loop_len": None}
         s = {"sid": f"L{i}", "type": typ, "group": (2 + i % 2) if cross else G, "n_ent": 1, "meta_style": 0,
              "transport": pick_weighted(rng, TRANSPORT_MIXES["mixed"]), "beh": beh}
+        if rng.random() < 0.1:
+            beh["p_none"] = rng.choice([0.5, 1.0])     # loop messages without payload (value None)
         if i != 0 and rng.random() < 0.25:
             # a member that dates (some of) its outputs into the next time step(s)
             beh["future"] = True
@@ -688,6 +693,34 @@ def gen_async(seed: int, tier: str = "quick") -> Dict[str, Any]:
             c["shift"] = 1
             c["init"] = {"p_out": f"initA{i}"}
         conns.append(c)
+    if rng.random() < 0.3:
+        # an agent that is not time-based: its steps are demanded by a sensor (possibly lagging behind
+        # the plant), the plant is tied to it by async_requests only
+        i = rng.randrange(1, k + 1)
+        Bx = sims[i]
+        Bx["type"] = rng.choice(["event-based", "hybrid"])
+        Bx["beh"] = {"bseed": rng.randrange(1 << 30), "p_self": rng.choice([0.0, 0.0, 0.3]), "self_d": rng.choice([1, 2]),
+                     "p_out": 0.5, "loop_len": 1, "async_calls": Bx["beh"]["async_calls"]}
+        if Bx["type"] == "event-based":
+            Bx["init_event"] = rng.choice([None, None, 0])
+        S = {"sid": "S", "type": "time-based", "group": 0, "n_ent": 1, "meta_style": 0,
+             "transport": rng.choice(["gated", "remote", "remote", "cmd"]),
+             "beh": {"bseed": rng.randrange(1 << 30), "step_sizes": [rng.choice([1, 1, 2, 3])]}}
+        sims.append(S)
+        conns.append({"src": len(sims) - 1, "se": 0, "dst": i, "de": 0, "pairs": [["p_out", "t_in"]],
+                      "shift": rng.choice([0, 0, 1]), "weak": False})
+        c0 = conns[i - 1]
+        if rng.random() < 0.6:
+            c0["pairs"] = []                      # async_requests only, no data from the plant
+            c0["shift"] = 0
+            c0.pop("init", None)
+        elif Bx["type"] == "hybrid":
+            pass                                  # p_out -> m_in (non-trigger)
+        else:
+            c0["pairs"] = [["p_out", "t_in"]]     # the plant triggers the agent too
+            c0["shift"] = 0
+            c0.pop("init", None)
+        Bx["n_ent"] = max(Bx["n_ent"], 1)
     if rng.random() < 0.3:
         # somebody else feeds the attribute the agents write to, over an ordinary connection
         D = {"sid": "D", "type": "time-based", "group": 0, "n_ent": 1, "meta_style": 0,
